@@ -72,6 +72,14 @@ DoMerge(s, src, load) ==
             ELSE LET s1 == Ev([Blank(AutoBegin(s), sp) EXCEPT !.life[sp] = "persistent", !.key[sp] = k, !.imap[k] = sp, !.pk[sp] = k, !.v[sp] = 0],
                               "detached_to_persistent", sp)
                  IN R(CopyRaw(s1, sp, src), "new:" \o sp)
+\* merge of a detached copy whose identity key carries an identity token (loaded elsewhere with identity_token="tk"): the
+\* identity (k, "tk") is never in this session's identity map (the binding expunges the result again within the step), so
+\* merge autoflushes, SELECTs through Session.get(..., identity_token="tk") and returns a NEW instance keyed (k, "tk") - never
+\* the entry of (k, None), which stays untouched - or, without a row, a new pending instance
+DoMergeTok(s, k) ==
+  LET f == DoFlush(s) IN
+  IF f.ret # "ok" THEN f
+  ELSE LET s2 == Sql(AutoBegin(f.st), 1) IN R(s2, IF s2.work[k] # Absent THEN "tok:persistent" ELSE "tok:pending")
 SrcOfArg(a) == [kind |-> a[1], k |-> a[2], S |-> (IF a[3] THEN {"id"} ELSE {}) \cup (IF a[4] THEN {"v"} ELSE {}), x |-> a[5]]
 ArgOfSrc(src, load) == <<src.kind, src.k, "id" \in src.S, "v" \in src.S, src.x, load>>
 \* ------------------------------------------------------------------ C46: partial expiry, attribute read, queries, external writer
@@ -188,6 +196,7 @@ NextX == ~st.taint /\
   \/ (On("FQuery") /\ On("QueryV") /\ ~st.needrb /\ \E x \in Vals : StepX("FQueryV", <<x>>, FThen(Clear(st), LAMBDA s : DoQuery(s, x, FALSE))))
   \/ (On("Merge") /\ ~st.needrb /\ \E src \in Srcs : \E load \in (IF src.kind = "Dm" THEN {FALSE} ELSE BOOLEAN) :
          \E r \in {DoMerge(Clear(st), src, load)} : r.ret # "nospare" /\ StepX("Merge", ArgOfSrc(src, load), r))
+  \/ (On("MergeTok") /\ ~st.needrb /\ \E k \in Keys : st.committed[k] # Absent /\ StepX("MergeTok", <<k>>, DoMergeTok(Clear(st), k)))
   \/ (On("Ext") /\ ~st.wr /\ \E k \in Keys :
          \/ \E x \in Vals : st.committed[k] # x /\ StepX("ExtSet", <<k, x>>, R(ExtWrite(Clear(st), k, x), "ok"))
          \/ (st.committed[k] # Absent /\ StepX("ExtDel", <<k>>, R(ExtWrite(Clear(st), k, Absent), "ok"))))
@@ -227,6 +236,13 @@ MergeIdempotent == [][ IsMerge =>
         m2 == DoMerge(Clear(st'), src, load) f1 == DoFlush(Clear(st')) IN
     f1.ret = "ok" => /\ RetObj(m2.ret) = t
                      /\ LET f2 == DoFlush(Clear(m2.st)) IN f2.ret = "ok" /\ Proj(f2.st) = Proj(f1.st) ]_vars
+\* an identity key includes its token: merging a token-bearing copy gives a separate instance under (k, token) exactly when the
+\* row exists in the transaction's view, and leaves every instance of the token-less identities as the autoflush left it
+MergeTokSeparate == [][ (last'.a = "MergeTok" /\ last'.ret \in {"tok:persistent", "tok:pending"}) =>
+    LET f == DoFlush(Clear(st)) IN
+    /\ f.ret = "ok" /\ Proj(st') = Proj(f.st) /\ st'.mod = f.st.mod /\ st'.cv = f.st.cv
+    /\ (last'.ret = "tok:persistent" <=> st'.work[last'.arg[1]] # Absent)
+    /\ last'.sql = f.st.sql + 1 ]_vars
 \* ---------- C46
 WrSync == ~st.wr => st.work = st.committed
 StaleLoaded == \A o \in st.stale : "v" \notin st.exp[o] /\ InMapS(st, o)
